@@ -119,8 +119,12 @@ def enum_base(ty):
     t = re.sub(r"^&(mut )?", "", (ty or "").strip())
     if t[:1] in "([{*" or t.startswith("dyn ") or t.startswith("impl "):
         return ""
+    has_generics = "<" in t
     t = re.sub(r"<.*$", "", t)
-    return t.split("::")[-1]
+    base = t.split("::")[-1]
+    if base == "Poll" and (not has_generics or t.startswith("sys::") or t.startswith("crate::")):
+        return ""          # calloop's own sys::Poll struct, not std::task::Poll<T>
+    return base
 
 
 class Event:
@@ -1278,6 +1282,7 @@ def _opt_res_simple(ex, st, fr, callee, args, dty):
                 cargs = [_payload(ex, v, "Err", 0)]
             if meth == "filter":
                 cargs = [Ref(Obj("filt", pv))]
+                pass
             inner_ty = None
             for s3, rv in ex.call_closure_or_fn(s2, clos, cargs, None):
                 if rv is PANIC:
@@ -1291,7 +1296,9 @@ def _opt_res_simple(ex, st, fr, callee, args, dty):
                 elif meth == "inspect":
                     outs.append((s3, v))
                 elif meth == "filter":
-                    raise Unsupported("Option::filter")
+                    if not z3.is_bool(rv):
+                        raise Unsupported("Option::filter predicate is not a bool")
+                    outs.append((s3, Enum(dty or v.ty, z3.If(rv, z3.IntVal(1), z3.IntVal(0)), {"Some": {0: pv, "_name": "Some"}}, "filtered")))
         elif meth == "take":
             raise Unsupported("take handled elsewhere")
         else:
@@ -1493,7 +1500,7 @@ HANDLERS = [
     (r"^<.* as Try>::branch$", _try_branch),
     (r"^<.* as FromResidual<.*>>::from_residual$", _from_residual),
     (r"^Option::<.*>::take$", _opt_take),
-    (r"^(Option|Result|std::result::Result|std::option::Option)::<.*>::(is_some|is_none|is_ok|is_err|ok|err|unwrap|expect|unwrap_or|unwrap_or_default|ok_or|or|as_ref|as_mut|map|map_err|and_then|unwrap_or_else|map_or|or_else|is_some_and|inspect)(::<.*>)?$", _opt_res_simple),
+    (r"^(Option|Result|std::result::Result|std::option::Option)::<.*>::(is_some|is_none|is_ok|is_err|ok|err|unwrap|expect|unwrap_or|unwrap_or_default|ok_or|or|as_ref|as_mut|map|map_err|and_then|unwrap_or_else|map_or|or_else|is_some_and|inspect|filter)(::<.*>)?$", _opt_res_simple),
     (r"^std::mem::take::<.*>$", _mem_take),
     (r"^std::mem::replace::<.*>$", _mem_replace),
     (r"^std::mem::forget::<.*>$", _mem_forget),
